@@ -467,6 +467,8 @@ class ProgGen(object):
             else:
                 body = self.rhs(t, scope, d - 1)
             hs = [self.handler(ex, t, scope, d) for ex in r.sample(self.exns, r.randint(1, 2))]
+            if "catchall" in self.feat and r.random() < 0.5:        # opt-in feature: `true => value` takes every exception
+                hs.append({"exn": "*", "ps": [], "body": self.expr(t, scope, d - 1)})
             if "try" in self.emph:
                 fin = {"e": "seq", "t": UNIT, "es": [{"e": "print", "args": [{"e": "str", "s": "fin%d\n" % r.randint(0, 9)}]}]}
             else:
@@ -1056,6 +1058,41 @@ class ProgGen(object):
                 self.funs.append(f)
                 self.items.append(("f", f))
 
+    def recover_drivers(self):
+        """(feature "catchall") a function that halts (error / failed assertion) or throws for some arguments, called in a loop
+        whose try expression takes every exception with a catch-all clause: the program recovers from several run-time
+        errors in a row and goes on."""
+        r = self.r
+        x_ = self.fresh("p")
+        ways = [{"e": "error", "msg": "bad%d" % r.randint(0, 9)}]
+        if "assert" in self.feat:
+            ways.append({"e": "assert", "c": {"e": "bool", "b": False}})
+        if self.exns:
+            ways.append({"e": "throw", "exn": r.choice([e_ for e_ in self.exns if e_ not in self.exnp] or self.exns[:1]), "args": []})
+            ways[-1]["args"] = [lit(self.exnp[ways[-1]["exn"]], 1)] if ways[-1]["exn"] in self.exnp else []
+        es = []
+        for k in range(r.randint(4, 6)):
+            es.append({"e": "if", "c": prim("si.eq", prim("si.mod", var(x_), lit(SI, 7)), lit(SI, k)), "a": r.choice(ways), "b": {"e": "unit"}, "t": UNIT})
+        es.append(prim("si.mul", var(x_), lit(SI, r.randint(2, 9))))
+        risky = {"name": self.fresh("f"), "ps": [x_], "pts": [SI], "rt": SI, "pure": False, "body": {"e": "seq", "t": SI, "es": es}}
+        risky["oname"] = risky["name"]
+        self.funs.append(risky)
+        self.items.append(("f", risky))
+        ri = len(self.funs)
+        t_, i_ = self.fresh("v"), self.fresh("i")
+        body = {"e": "let", "x": t_, "t": SI, "v": lit(SI, 0), "body": {"e": "seq", "t": SI, "es": [
+            {"e": "for", "x": i_, "lo": lit(SI, 0), "hi": lit(SI, r.randint(8, 14)),
+             "body": {"e": "seq", "t": UNIT, "es": [
+                 {"e": "asg", "x": t_, "v": prim("si.add", var(t_), {"e": "try", "t": SI, "body": {"e": "call", "fi": ri, "args": [var(i_)]},
+                                                                     "hs": [{"exn": "*", "ps": [], "body": lit(SI, -1)}],
+                                                                     "fin": {"e": "none"}})}]}},
+            var(t_)]}}
+        drv = {"name": self.fresh("f"), "ps": [], "pts": [], "rt": SI, "pure": False, "body": body}
+        drv["oname"] = drv["name"]
+        self.funs.append(drv)
+        self.items.append(("f", drv))
+        self.items.append(("t", {"d": "stmt", "x": {"e": "print", "args": [{"e": "call", "fi": len(self.funs), "args": []}, {"e": "str", "s": "\n"}]}}))
+
     def deep_drivers(self):
         """(emphasis "deep") a function whose body nests immediately applied closures five to seven deep; every level reads the
         parameters of all enclosing levels and assigns variables of the outermost function and of the file."""
@@ -1295,6 +1332,8 @@ class ProgGen(object):
             self.redundancy_drivers()
         if "deep" in self.emph:
             self.deep_drivers()
+        if "catchall" in self.feat and "fun" in self.feat:
+            self.recover_drivers()
         # make sure something is printed
         pr = [x for x, (t, a) in self.gscope.vars.items() if t in (SI, BI, STR)]
         args = []
